@@ -1275,11 +1275,60 @@ def fingerprints(ctx):
     ctx.notes.append("source fingerprints of the anchored functions: " + ", ".join(f"{k}={v}" for k, v in fp.items()))
 
 
+def unit_ctor_rejects_traced(ctx):
+    """The documented rejections must also happen when the object is constructed INSIDE a jit-compiled function from traced
+    arguments (a likelihood or training step that builds Normal(loc, scale)): an `eqx.error_if` whose result is not used is
+    silently dropped by XLA (seeded change C11c).  Oracle only: invalid => some error; valid => the eager value."""
+    import equinox as eqx
+    import jax
+    import jax.numpy as jnp
+    from flowjax.bijections import Affine, Scale, TriangularAffine
+    from flowjax.distributions import Exponential, Normal, StudentT
+    from flowjax.wrappers import unwrap
+
+    u = ctx.unit("ctor-rejects-traced", "constructors with a softplus-constrained argument built inside eqx.filter_jit / jax.jit from a traced value at and "
+                                        "beyond the edge of validity (0, -tiny, -1) and at valid values (1e-6..1e6): raises iff invalid; valid values reproduced")
+    tri = lambda a: jnp.diag(unwrap(TriangularAffine(jnp.zeros(2), jnp.array([[1.0, 0.0], [0.5, 1.0]]).at[1, 1].set(a)).triangular))[1]  # noqa: E731
+    builders = {
+        "Normal(0, s).scale": lambda s: Normal(0.0, s).scale,
+        "Affine(0, s).scale": lambda s: unwrap(Affine(0.0, s).scale),
+        "Scale(s).scale": lambda s: unwrap(Scale(s).scale),
+        "StudentT(df=s).df": lambda s: StudentT(s).df,
+        "TriangularAffine diag": tri,
+        "Normal(0, s).log_prob(0.3)": lambda s: Normal(0.0, s).log_prob(0.3),
+    }
+    modes = {"eqx.filter_jit": eqx.filter_jit, "jax.jit": jax.jit}
+    rng = ctx.rng
+    for bname, build in builders.items():
+        for mname, wrap in modes.items():
+            f = wrap(build)
+            for bad in (0.0, -1e-300, -1.0, -float(np.exp(rng.normal(0, 3)))):
+                u.count((bname, mname, bad), tag=f"invalid:{mname}")
+                try:
+                    val = jax.block_until_ready(f(jnp.asarray(bad)))
+                    ctx.violation(sig=f"ctor-traced:{bname}:accepted", what=f"{bname} built under {mname} with the invalid argument {bad!r} was accepted silently: {np.asarray(val).tolist()}",
+                                  case=dict(unit="ctor-rejects-traced", builder=bname, mode=mname, arg=bad), found_input=True, unit=u.name,
+                                  expected="an error", observed=str(np.asarray(val).tolist()), broken="rejection of invalid constructor arguments (traced construction)")
+                except Exception:  # noqa: BLE001  any error is a rejection
+                    pass
+            for good in (1e-6, 0.3, float(np.exp(rng.normal(0, 2))), 1e6):
+                u.count((bname, mname, good), tag=f"valid:{mname}")
+                try:
+                    val, ref = float(f(jnp.asarray(good))), float(build(jnp.asarray(good)))
+                    if not abs(val - ref) <= 1e-12 * max(1.0, abs(ref)):
+                        raise AssertionError(f"{val!r} != eager {ref!r}")
+                except Exception as e:  # noqa: BLE001
+                    ctx.violation(sig=f"ctor-traced:{bname}:valid", what=f"{bname} built under {mname} with the valid argument {good!r}: {type(e).__name__}: {str(e)[:100]}",
+                                  case=dict(unit="ctor-rejects-traced", builder=bname, mode=mname, arg=good), found_input=True, unit=u.name,
+                                  broken="constructor reproduces its arguments (traced construction)")
+
+
 def run(ctx):
     K = kinds()
     fingerprints(ctx)
     unit_ctor_roundtrip(ctx)
     unit_ctor_rejects(ctx)
+    unit_ctor_rejects_traced(ctx)
     unit_hypotheses(ctx)
     unit_raw_box(ctx, K)
     unit_trained(ctx, K)
